@@ -116,7 +116,20 @@ class SymSet:
         return CTX.obs_eq(fAnd([z3.Implies(self.d[x], o.d[x]) for x in self.d]), self.real.is_subset(o.real), "VertexSet.is_subset")
 
     def symbolic_size(self):
-        # a representation-dependent heuristic: concretise the set (its BDD size is a function of its content)
+        """A representation-dependent heuristic without a functional contract.  Default resolution ('real'): concretise
+        the set (its BDD size is a function of its content) and return the real size.  Decision-point resolutions
+        ('decline' / 'accept'): substitute contract-admissible values that make the caller's size comparison
+        `avoid.symbolic_size() >= updated.symbolic_size()` always fail / always succeed - no constraint is added, so
+        the verdict does not depend on AEON's BDD sizes at all.  A counterexample found under a substituted value is
+        reported only if it replays with the real sizes (otherwise: contract-level hazard)."""
+        mode = ENABLED.get("size_mode", "real")
+        if mode in ("decline", "accept"):
+            import sys as _sys
+            caller = _sys._getframe(1).f_locals
+            is_avoid = caller.get("avoid") is self
+            if mode == "decline":
+                return 0 if is_avoid else 1
+            return 10 ** 9 if is_avoid else 0
         for x, f in self.d.items():
             CTX.obs(f)
         return self.real.symbolic_size()
